@@ -152,7 +152,7 @@ def run():
                 suspects += [cs[j] for j in (bad if bad else range(len(cs)))]
         seen, alone = set(), []
         for c in suspects:
-            if c["key"] not in seen and len(alone) < 400:
+            if c["key"] not in seen and len(alone) < (120 if thorough else 60):
                 seen.add(c["key"])
                 alone.append(c)
         nalone = len(alone)
